@@ -146,6 +146,11 @@ fn one_run(prop: Prop, base_seed: u64, index: u64, long: bool, lattice: bool, kn
             }
         }
     } else {
+        if let Some(line) = gen::line_for(index) {
+            g.prefix = line;
+            g.swarm.len = g.swarm.len.max(2);
+            stats.hit("boot_opening_line");
+        }
         gen::boot_for(base_seed, index, &mut g.rng, roots)
     };
     let mut trace = Trace { boot: boot.clone(), ops: vec![] };
@@ -496,6 +501,18 @@ fn cmd_selftest() -> i32 {
         }
     }
     println!("selftest: {} curated roots checked", gen::roots().len());
+    for line in gen::lines() {
+        let mut m = decode("rnbqkbnr/pppppppp/8/8/8/8/PPPPPPPP/RNBQKBNR w KQkq - 0 1", false).unwrap().0;
+        for mv in &line {
+            if !m.legal_moves().contains(mv) {
+                println!("selftest: curated line has an illegal move {}", mv.text());
+                bad += 1;
+                break;
+            }
+            m.make(*mv);
+        }
+    }
+    println!("selftest: {} curated opening lines checked", gen::lines().len());
     if synth::slider_lattice_entries() != 102_400 + 5_248 || synth::ray_lattice_entries() != (896 + 560) * 6 {
         println!("selftest: lattice has {} + {} entries, expected 107648 + 8736", synth::slider_lattice_entries(), synth::ray_lattice_entries());
         bad += 1;
